@@ -642,7 +642,9 @@ class SAMIParser(HTMLParser):
         self.line = ''
         self.styles = {}
         self.queue = deque()
-        self.langs = set()
+        # languages in order of first appearance (a set would make the order
+        # of CaptionSet.get_languages() depend on the hash seed)
+        self.langs = []
         self.last_element = ''
         self.name2codepoint = name2codepoint.copy()
         self.name2codepoint['apos'] = 0x0027
@@ -667,7 +669,8 @@ class SAMIParser(HTMLParser):
             # if no language detected, set it as the default
             lang = lang or DEFAULT_LANGUAGE_CODE
             attrs.append(('lang', lang))
-            self.langs.add(lang)
+            if lang not in self.langs:
+                self.langs.append(lang)
 
         # clean-up line breaks
         if tag == 'br':
@@ -728,7 +731,7 @@ class SAMIParser(HTMLParser):
     def feed(self, data):
         """
         :param data: Raw SAMI unicode string
-        :returns: tuple (str, dict, set)
+        :returns: tuple (str, dict, list)
         """
         no_cc = 'no closed captioning available'
 
